@@ -64,7 +64,7 @@ Proof. destruct e; cbn; intros H; inversion H; auto. Qed.
 
 Lemma eof_k_read n s s' : ICP s -> takes n -> k_read n s = (s', Done (RBytes [])) -> at_eof_state s'.
 Proof.
-  intros [HI _] Hn. unfold k_read. destruct (need_wait s) eqn:Ew; [unfold block; intros E; inversion E|].
+  intros [HI _] Hn. unfold k_read. destruct (need_wait s) eqn:Ew; [unfold block; destruct (wait_exc _); intros E; inversion E|].
   destruct (read_nowait n s) as [[s1 d] e] eqn:Er. intros E. inversion E; subst s1.
   apply finish_bytes_nil in H1 as [-> ->].
   destruct (read_nowait_nil n s HI Hn) as [Hb Hr]; [rewrite Er; reflexivity|].
@@ -75,7 +75,7 @@ Qed.
 Lemma eof_k_readall fuel : forall acc s s' b, ICP s -> k_readall fuel acc s = (s', Done (RBytes b)) -> at_eof_state s'.
 Proof.
   induction fuel as [|fuel IH]; intros acc s s' b H; rewrite k_readall_eq;
-    (destruct (need_wait s) eqn:Ew; [unfold block; intros E; inversion E|]);
+    (destruct (need_wait s) eqn:Ew; [unfold block; destruct (wait_exc _); intros E; inversion E|]);
     pose proof (ICP_read_nowait (-1) s H) as H1;
     destruct (read_nowait (-1) s) as [[s1 d] e] eqn:Er; cbn [fst] in H1;
     (destruct e; [|cbn; intros E; inversion E|cbn; intros E; inversion E]);
@@ -101,7 +101,7 @@ Lemma eof_k_until fuel : forall sep m acc s s', sep <> [] -> ICP s ->
 Proof.
   induction fuel as [|fuel IH]; intros sep m acc s s' Hsep H; rewrite k_until_eq;
     (destruct (buf s) as [|f r] eqn:Eb;
-     [destruct (eof s) eqn:Ee; [intros E; inversion E; subst; split; assumption|unfold block; intros E; inversion E]|]).
+     [destruct (eof s) eqn:Ee; [intros E; inversion E; subst; split; assumption|unfold block; destruct (wait_exc _); intros E; inversion E]|]).
   - intros E; inversion E.
   - destruct (find_sub sep f) as [i|] eqn:Ef.
     + assert (Hn : takes (i + len sep)).
@@ -119,7 +119,7 @@ Lemma eof_k_exactly fuel : forall n acc s s' p x lost, 1 <= n -> ICP s ->
   k_exactly fuel n acc s = (s', Done (RRaise (ExIncomplete p x) lost)) -> at_eof_state s'.
 Proof.
   induction fuel as [|fuel IH]; intros n acc s s' p x lost Hn H; rewrite k_exactly_eq;
-    (destruct (need_wait s) eqn:Ew; [unfold block; intros E; inversion E|]);
+    (destruct (need_wait s) eqn:Ew; [unfold block; destruct (wait_exc _); intros E; inversion E|]);
     pose proof (ICP_read_nowait n s H) as H1;
     destruct (read_nowait n s) as [[s1 d] e] eqn:Er; cbn [fst] in H1;
     (destruct e; [|cbn; intros E; inversion E|cbn; intros E; inversion E]);
@@ -150,7 +150,7 @@ Proof.
   - destruct (readchunk_at p (cursor s)); [intros E; inversion E|].
     destruct (read_nowait (p - cursor s) s0) as [[s1 d] e]. destruct e; cbn; intros E; inversion E.
   - destruct (buf s0) as [|f r] eqn:Eb.
-    + destruct (eof s0) eqn:Ee; [intros E; inversion E; subst; split; assumption|unfold block; intros E; inversion E].
+    + destruct (eof s0) eqn:Ee; [intros E; inversion E; subst; split; assumption|unfold block; destruct (wait_exc _); intros E; inversion E].
     + pose proof (rnc_nonempty (-1) f r s0 (proj1 H0) Eb (or_introl eq_refl)) as Hne.
       destruct (rnc (-1) f r s0) as [s1 d]. cbn [snd] in Hne. intros E; inversion E. congruence.
 Qed.
@@ -238,7 +238,7 @@ Qed.
 Theorem SysP_Inv_run limit ops : SysP Inv (fst (run ops (init_sys limit))).
 Proof.
   apply (run_SysP Inv Inv_feed Inv_begin Inv_end Inv_eof Inv_exc Inv_pend Inv_consume_resume Inv_marks
-                  (fun s H _ _ _ => Inv_wt s Waiting H) (fun s H => Inv_wt s NoTask H) Inv_pop Inv_unread).
+                  (fun s H _ _ _ _ => Inv_wt s Waiting H) (fun s H => Inv_wt s NoTask H) Inv_pop Inv_unread).
   split; [apply Inv_init|reflexivity].
 Qed.
 
